@@ -343,6 +343,12 @@ def rule_order(ctx, rep):
     lfht.rule_shrink(ctx, rep, "C09.order")
 
 
+def rule_wqwake(ctx, rep):
+    """work queue (resize / destroy worker): futex_wake_up resets the word before FUTEX_WAKE, only when it is -1"""
+    from .. import waitloop as _wl
+    _wl.check_wakers(rep, "C09.wqwake", "cds", ctx.mod("cds", "perfn"), lambda name, ap: ap["base"] == ["a", 0] and not ap["steps"])
+
+
 RULES = [
     ("C09.pow2", rule_pow2),
     ("C09.size", rule_size),
@@ -351,5 +357,6 @@ RULES = [
     ("C09.partition", rule_partition),
     ("C09.chain", lambda c, r: lfht.rule_chain(c, r, "C09.chain")),
     ("C09.bucket", lambda c, r: lfht.rule_bucket(c, r, "C09.bucket")),
+    ("C09.wqwake", rule_wqwake),
 ]
 FLOORS = {"C09.pow2": 4}
